@@ -4,6 +4,7 @@ import (
 	"bytes"
 	"encoding/binary"
 	"fmt"
+	"math"
 	"strings"
 )
 
@@ -43,6 +44,9 @@ type binaryVarPrefixer struct {
 func intToBytes(n int) ([]byte, error) {
 	if n < 0 {
 		return nil, fmt.Errorf("negative number: %d", n)
+	}
+	if n > math.MaxUint32 {
+		return nil, fmt.Errorf("number does not fit 4 bytes: %d", n)
 	}
 	buf := new(bytes.Buffer)
 	err := binary.Write(buf, binary.BigEndian, uint32(n))
